@@ -89,6 +89,8 @@ def step_of(act, args, dst, nodes):
         s.update(n=args[0], s=setof(args[1]), dup=bool(args[2]))
     elif act in ("HandleMembers", "Join", "Leave"):
         s.update(n=args[0])
+    elif act == "ActivateTimeout":
+        s.update(n=args[0], k=args[1], m=args[2])
     elif act == "Activate":
         s.update(n=args[0], k=args[1], i=args[2], m=args[3])
     elif act == "Deactivate":
